@@ -34,7 +34,7 @@ ASSUMPTIONS = ['expressions: depth <= 3 over x y z, numerals 0..3 (real also 1/2
 RULE = ('one evaluation = one (conversion, term) application or one canonicity pair; distinct = distinct (conversion, term); non-trivial = the conversion returned an equation '
         '(it was then re-checked and sent to the oracle)')
 EXPLANATION = 'equations returned by conversions are decided valid by z3 for all variable values; polynomial equality of canonicity pairs is decided by z3 before the normal forms are compared'
-BUDGET_S = {'quick': 240, 'thorough': 1500}
+BUDGET_S = {'quick': 240, 'thorough': 900}
 
 
 def bounds(tier):
